@@ -81,6 +81,9 @@ def run(prog, rep, tier):
     r4 = rep.rule("R15.4", "removal mutators test peer_still_has_path and decrement the session counter")
     check_counter_pairing(prog, r4)
 
+    r5 = rep.rule("R15.5", "stats.accepted / received deltas in Table::insert and Table::remove agree with the recount under every filtered/replaced combination")
+    check_stat_table(prog, r5)
+
 
 def check_limit(prog, r):
     ins = view(prog, prog.one(r"rustybgp_table::Table::insert"))
@@ -294,3 +297,134 @@ def check_counter_pairing(prog, r):
                 others.append(rn)
     for o in sorted(set(others)):
         r.fail(o, "unexpected-fetch_sub", "decrements the prefix counter outside the four removal mutators", "table/src/lib.rs")
+
+
+# ---------------------------------------------------------------------------------------------- R15.5
+def _delta(e):
+    """(+1 / -1 / ...) of a `stats.f = stats.f +/- const` right-hand side, None if it has another shape."""
+    for x in walk(e):
+        if isinstance(x, tuple) and x and x[0] == "bin" and x[1] in ("Add", "Sub", "AddWithOverflow", "SubWithOverflow", "AddUnchecked", "SubUnchecked"):
+            c = x[3]
+            if c[0] == "const" and isinstance(c[1], int):
+                return c[1] if x[1].startswith("Add") else -c[1]
+            return None
+    return None
+
+
+def _eval(e, env, free):
+    """Three-valued evaluation of a guard expression under `env` (atom -> label); unknown atoms are recorded in `free`."""
+    if isinstance(e, tuple) and e:
+        if e[0] == "un" and e[1] == "Not":
+            v = _eval(e[2], env, free)
+            return {"true": "false", "false": "true"}.get(v, v)
+        if e[0] == "bin" and e[1] in ("Eq", "Ne", "BitAnd", "BitOr", "BitXor"):
+            a, b = _eval(e[2], env, free), _eval(e[3], env, free)
+            if a in ("true", "false") and b in ("true", "false"):
+                a, b = a == "true", b == "true"
+                v = {"Eq": a == b, "Ne": a != b, "BitXor": a != b, "BitAnd": a and b, "BitOr": a or b}[e[1]]
+                return "true" if v else "false"
+        if e[0] in ("ref", "deref"):
+            return _eval(e[1], env, free)
+    key = _atom(e)
+    if key not in env:
+        free.add(key)
+    return env.get(key)
+
+
+def _atom(e):
+    e0 = e
+    while isinstance(e, tuple) and e and e[0] in ("ref", "deref"):
+        e = e[1]
+    if isinstance(e, tuple) and e:
+        if e[0] == "discr" and "replaced" in expr_vars(e):
+            return "R"
+        if e[0] == "call" and e[1].endswith("RibEntry::is_filtered"):
+            return "O"
+        if e[0] == "var" and e[1] == "filtered":
+            return "F"
+    return "?" + show(e0, 120)
+
+
+def check_stat_table(prog, r):
+    """Table::insert: `accepted` counts the peer's unfiltered paths, so under every combination of (a path was replaced?,
+    the replaced path was filtered?, the new path is filtered?) the net change written to stats.accepted must be
+    [new unfiltered] - [replaced and old unfiltered]; `received` changes only when nothing was replaced."""
+    import itertools
+    k = prog.one(r"rustybgp_table::Table::insert")
+    fv = view(prog, k)
+    r.analysed(prog.name(k))
+    rend = Renderer(fv, depth=6)
+    brs = branches(fv)
+    writes = []
+    for name in ("accepted", "received"):
+        for bi, si, s in field_writes(fv, name):
+            d = _delta(rend.rvalue(s["rv"], 6))
+            if d is None:
+                r.unanalysable("insert: write to stats.%s is not `+= const` / `-= const` (line %d)" % (name, fv.line(bi)), fv.loc(bi))
+                return
+            writes.append((name, d, bi, [(g, frozenset(l)) for g, l, h in flat_guards(fv, bi, brs)]))
+    if len([w for w in writes if w[0] == "accepted"]) < 2 or not any(w[0] == "received" for w in writes):
+        r.unanalysable("insert: expected writes to stats.accepted and stats.received", fv.loc())
+        return
+    # guards common to every write lead to the accounting region: not part of the table
+    common = set.intersection(*[{(show(g), l) for g, l in w[3]} for w in writes])
+    atoms, dom = set(), {"R": ("Some", "None"), "O": ("true", "false"), "F": ("true", "false")}
+    for w in writes:
+        for g, l in w[3]:
+            if (show(g), l) in common:
+                continue
+            fr = set()
+            _eval(g, {}, fr)
+            for a in fr:
+                atoms.add(a)
+                if a not in dom:
+                    dom[a] = tuple(sorted(set(l) | {"true", "false"})) if l <= {"true", "false"} else tuple(sorted(set(l) | {"<other>"}))
+    if not {"R", "O", "F"} <= atoms:
+        r.unanalysable("insert: the accounting is not conditioned on replaced / old.is_filtered() / filtered (atoms: %s)" % sorted(atoms), fv.loc())
+        return
+    order = sorted(atoms)
+    bad = {}
+    n = 0
+    for vals in itertools.product(*[dom[a] for a in order]):
+        env = dict(zip(order, vals))
+        if env["R"] == "None" and env["O"] == "true":
+            continue            # no old entry: O is meaningless, enumerate it once
+        n += 1
+        got = {"accepted": 0, "received": 0}
+        for name, d, bi, gs in writes:
+            if all((show(g), l) in common or _eval(g, env, set()) in l for g, l in gs):
+                got[name] += d
+        newu = 0 if env["F"] == "true" else 1
+        oldu = 0 if (env["R"] == "None" or env["O"] == "true") else 1
+        if got["accepted"] != newu - oldu:
+            kk = "accepted-delta:replaced=%s,old_filtered=%s,new_filtered=%s" % (env["R"], env["O"] if env["R"] == "Some" else "-", env["F"])
+            bad.setdefault(kk, (got["accepted"], newu - oldu))
+        if env["R"] == "Some" and got["received"] != 0:
+            bad.setdefault("received-delta:replaced=Some", (got["received"], 0))
+        if env["R"] == "None" and got["received"] not in (0, 1):
+            bad.setdefault("received-delta:replaced=None", (got["received"], "0 or 1"))
+    if not bad:
+        r.ok("insert: stats.accepted changes by [new unfiltered] - [replaced old unfiltered] under all %d combinations of %s; received only without replacement" % (n, order))
+    for kk, (g, w) in sorted(bad.items()):
+        r.fail(prog.name(k), kk, "stats.accepted/received changes by %s where the recount changes by %s: peer_stats and Table::state drift from the RIB's contents" % (g, w), fv.loc(writes[0][2]))
+
+    # Table::remove: accepted goes down iff the removed entry was unfiltered
+    k = prog.one(r"rustybgp_table::Table::remove")
+    fv = view(prog, k)
+    r.analysed(prog.name(k))
+    rend = Renderer(fv, depth=8, through_names=True)
+    brs = branches(fv, rend)
+    ws = field_writes(fv, "accepted")
+    if not ws:
+        r.fail(prog.name(k), "accepted-not-decremented", "Table::remove never decrements stats.accepted", fv.loc())
+    for bi, si, s in ws:
+        d = _delta(Renderer(fv, depth=6).rvalue(s["rv"], 6))
+        gs = flat_guards(fv, bi, brs)
+        on_removed = [1 for g, l, h in gs if g[0] == "call" and g[1].endswith("RibEntry::is_filtered") and l == {"false"}
+                      and (any(re.search(r"Vec::<T(, A)?>::(remove|swap_remove)$", c) for c in expr_calls(g)) or any(x[0] == "index" for x in walk(g) if isinstance(x, tuple) and x))]
+        others = [show(g, 60) for g, l, h in gs if g[0] == "call" and g[1].endswith("RibEntry::is_filtered") and l != {"false"}]
+        if d == -1 and on_removed and not others:
+            r.ok("remove: stats.accepted -= 1 iff the removed entry was unfiltered")
+        else:
+            r.fail(prog.name(k), "accepted-decrement-condition", "stats.accepted is changed by %s under %s, not by -1 exactly when the removed entry was unfiltered"
+                   % (d, " & ".join("%s∈%s" % (show(g, 50), sorted(l)) for g, l, h in gs)[:200]), fv.loc(bi))
